@@ -1,7 +1,7 @@
 #!/bin/bash
 # Re-runs every seeded change (seeded/<id>/patch.diff) against its property's quick check, using a patched scratch
 # worktree (DSIM_REPO) so /repo is never touched. Prints one line per change: CAUGHT / MISSED.
-cd /verif
+cd "$(dirname "$(readlink -f "$0")")/.."
 for d in seeded/*/; do
   id=$(basename $d); pid=$(python3 -c "import json;print(json.load(open('$d/meta.json'))['property'])")
   WT=/tmp/wt-seeded-$$-$id
